@@ -26,11 +26,8 @@ def PVs.ofList : List PV → PVs
   | [] => .nil
   | x :: xs => .cons x (PVs.ofList xs)
 
-def strLt : Str → Str → Bool
-  | [], [] => false
-  | [], _ :: _ => true
-  | _ :: _, [] => false
-  | a :: as, b :: bs => if a < b then true else if b < a then false else strLt as bs
+/-- `a < b` on strs: lexicographic by code point -/
+def strLt (a b : Str) : Bool := compare a b == .lt
 
 mutual
 /-- `a == b` -/
@@ -88,5 +85,38 @@ def pvCmp (a b : PV) : R Int :=
   match pvGt a b, pvLt a b with
   | some g, some l => .ok ((if g then 1 else 0) - (if l then 1 else 0))
   | _, _ => .error .pyType
+
+/-- lexicographic order on pairs (the order of Python tuples of fixed length) -/
+instance instOrdProdLex {α β} [Ord α] [Ord β] : Ord (α × β) := lexOrd
+
+/-- a value, or one of fmtutil's sentinels: `NegInf` below every value, `Inf` above -/
+inductive Sent (α : Type) where
+  | ninf
+  | val (a : α)
+  | inf
+  deriving Repr, DecidableEq
+
+def Sent.rank {α} : Sent α → Nat × Option α
+  | .ninf => (0, none)
+  | .val a => (1, some a)
+  | .inf => (2, none)
+
+instance {α} [Ord α] : Ord (Sent α) := ⟨compareOn Sent.rank⟩
+
+def Sent.enc {α} (e : α → PV) : Sent α → PV
+  | .ninf => .ninf
+  | .val a => e a
+  | .inf => .inf
+
+/-- `(s, n)` as a 2-tuple -/
+def encLetter (p : Str × Int) : PV := .tup (.cons (.str p.1) (.cons (.int p.2) .nil))
+
+/-- one item of a local label: `(i, "")` for a number, `(NegInf, s)` for text -/
+def encLocItem (p : Sent Int × Str) : PV :=
+  .tup (.cons (Sent.enc (fun i => PV.int i) p.1) (.cons (.str p.2) .nil))
+
+def encLocal (l : List (Sent Int × Str)) : PV := .tup (PVs.ofList (l.map encLocItem))
+
+def encRelease (l : List Nat) : PV := .tup (PVs.ofList (l.map fun (n : Nat) => PV.int (n : Int)))
 
 end Py
